@@ -18,6 +18,7 @@
 #include <memory>
 #include <new>
 #include <thread>
+#include <unistd.h>
 #include "rkcommon/memory/IntrusivePtr.h"
 #include "rkcommon/memory/RefCount.h"
 
@@ -114,6 +115,15 @@ static bool g_watch = false;
 static void inspectHandles()
 {
   if (!g_watch || !g) return;
+  // a handle that still designates the dying object revives it and destroys it again, without end: report instead of
+  // overflowing the stack (which ThreadSanitizer's signal handling turns into a hang)
+  static thread_local int depth = 0;
+  struct Depth { Depth() { ++depth; } ~Depth() { --depth; } } scope;
+  if (depth > 64) {
+    static const char msg[] = "c08 harness: an object under destruction was revived through a live handle and destroyed again (unbounded)\n";
+    if (write(2, msg, sizeof msg - 1)) {}
+    _exit(86);
+  }
   for (int x = 0; x < 7; x++) {
     if (!g->made[x]) continue;
     if (isD(x)) { Ref<Node> cur(*reinterpret_cast<Ref<Node> *>(g->store[x])); (void)cur; }
